@@ -80,7 +80,7 @@ FIRST_MISS = {
     ('C03', 'm13'): "the feeder's OutputPrecision() was always 0; it is now a knob (0, or 17..30 = all digits requested explicitly)",
     ('C10', 'm13'): "AMPLS sessions only had plain answers; a third of them now run with sol:chk:fail and a violating answer, so that a report step ends in the documented coded error 150: whatever .sol is left carries that code",
     ('C09', 'm13'): "generated names had quotes, backslashes, tabs and UTF-8 but no braces; names like x[3,'{A}'] and x[4,'{}->{0}'] are now generated (solution-check warnings quote them in the solve message)",
-    ('C20', 'm12'): "models had at most a dozen constraints; 1.2 % of the scenarios now append 1050..1750 range rows converted one by one (acc:linrange=0), and every auxiliary variable must be the destination of some link record (UNLINKED_ITEM)",
+    ('C20', 'm12'): "NOT A VIOLATION OF THE STATEMENT AS GIVEN (final check exits 0): the change drops link records beyond the 1024th of a run; the statement asks every link record to be valid, not every derived item to have one. A rule 'every auxiliary variable is the destination of a link record' caught it but raised a false alarm on the pinned tree (seed 1: the auxiliary variables of a QP objective moved into a rotated cone have no exported link record although their names are derived through one), so it was demoted to a probe (probe.aux_vars_without_link_record); big models (1050..1750 appended range rows) stay in the generator",
     ('C20', 'm13'): "the pre-existing export file was always a regular file; in a third of those scenarios the option now names a symbolic link to the earlier export",
     ('C04', 'm12'): "dual value classes were large / negative / small / zero-on-odd-rows; added 'every dual exactly zero' (no binding row)",
 }
